@@ -27,34 +27,34 @@ type Envelope struct {
 
 // KnownBlock is a block some proposer (correct or faulty) put on the wire.
 type KnownBlock struct {
-	Height  int64
-	Round   int32
-	Block   *types.Block
-	Parts   *types.PartSet
-	BlockID types.BlockID
+	Height   int64
+	Round    int32
+	Block    *types.Block
+	Parts    *types.PartSet
+	BlockID  types.BlockID
 	ByFaulty bool
 	Invalid  string // non-empty if deliberately invalid
 }
 
 type Net struct {
-	ChainID string
-	GenDoc  *types.GenesisDoc
-	Keys    []crypto.PrivKey // by genesis index
-	AddrIdx map[string]int   // validator address -> genesis index
-	Nodes   map[int]*Node    // correct validators
-	Order   []int            // sorted correct indexes
-	Faulty  []int
+	ChainID  string
+	GenDoc   *types.GenesisDoc
+	Keys     []crypto.PrivKey // by genesis index
+	AddrIdx  map[string]int   // validator address -> genesis index
+	Nodes    map[int]*Node    // correct validators
+	Order    []int            // sorted correct indexes
+	Faulty   []int
 	IsFaulty map[int]bool
 	InFlight []*Envelope
-	Step    int
-	R       *rand.Rand
-	Trace   []string
-	TraceOn bool
-	Known   map[string]*KnownBlock // by block hash (string of bytes)
-	KnownAt map[int64][]*KnownBlock
-	Part    map[int]int // partition side per node (0 = none)
-	PartOn  bool
-	Stats   map[string]int
+	Step     int
+	R        *rand.Rand
+	Trace    []string
+	TraceOn  bool
+	Known    map[string]*KnownBlock // by block hash (string of bytes)
+	KnownAt  map[int64][]*KnownBlock
+	Part     map[int]int // partition side per node (0 = none)
+	PartOn   bool
+	Stats    map[string]int
 	OnDecide func(n *Node, h int64)
 	// OnSign is called right after a node released a signature (from Pump).
 	Synchronous bool
@@ -67,13 +67,13 @@ type Net struct {
 }
 
 type NetOpt struct {
-	Seed     int64
-	Powers   []int64
-	Faulty   []int // genesis indexes without a node (keys held by the adversary)
+	Seed              int64
+	Powers            []int64
+	Faulty            []int // genesis indexes without a node (keys held by the adversary)
 	SkipTimeoutCommit bool
-	InitialHeight int64
-	NodeOpt  func(idx int) NodeOpt
-	PowerBumps bool // correct nodes occasionally propose a power increase for a correct validator
+	InitialHeight     int64
+	NodeOpt           func(idx int) NodeOpt
+	PowerBumps        bool // correct nodes occasionally propose a power increase for a correct validator
 }
 
 func NewNet(r *rand.Rand, opt NetOpt) *Net {
